@@ -338,7 +338,7 @@ def count_regions(stmts):
 
 
 # ------------------------------------------------------------------ structural hash (mirror of Model.tree_hash)
-HMOD = 2305843009213693951
+HMASK = (1 << 56) - 1
 BIN_CODE = {"Add": 1, "Sub": 2, "Mul": 3, "Div": 4, "Pow": 5, "Eq": 6, "Ne": 7, "Lt": 8, "Le": 9, "Gt": 10,
             "Ge": 11, "And": 12, "Or": 13}
 UN_CODE = {"Neg": 1, "Not": 2}
@@ -346,7 +346,7 @@ INTR_CODE = {"IMin": 1, "IMax": 2, "IMod": 3, "IAbs": 4, "ISign": 5, "ILbound": 
 
 
 def mix(h, x):
-    return (h * 1000003 + x) % HMOD
+    return (65537 * h + x) & HMASK
 
 
 def hash_expr(e, h, nm):
